@@ -80,8 +80,12 @@ AsAskedStrict ==
         THEN p[2] # p[1] /\ p[2] \notin NamesOf(SA) /\ p[2] \notin NamesOf(SB)
         ELSE p[2] = p[1]
 
+\* fusing leaves the two method descriptions it was given as they were
+InputsUnchangedStrict == Cases[cid].a_after = Cases[cid].a /\ Cases[cid].b_after = Cases[cid].b
+
 Rep(name, ok) == ok \/ PrintT(<<"BAD", cid, name>>)
 IdsUnique        == Rep("IdsUnique", IdsUniqueStrict)
+InputsUnchanged  == Rep("InputsUnchanged", InputsUnchangedStrict)
 Complete         == Rep("Complete", CompleteStrict)
 DepsIntact       == ~CompleteStrict \/ Rep("DepsIntact", DepsIntactStrict)
 SameShape        == ~CompleteStrict \/ Rep("SameShape", SameShapeStrict)
